@@ -192,3 +192,21 @@ func ReturnOperand(ret *ssa.Return, idx int) ssa.Value {
 	}
 	return v
 }
+
+// LocalLoadValue: for a load `*cell` of a local cell (Alloc) returns the value
+// of the last store to that cell earlier in the same block (the common pattern
+// `*err = call(); t = *err; if t != nil`), or nil.
+func LocalLoadValue(u *ssa.UnOp) ssa.Value {
+	al, ok := u.X.(*ssa.Alloc)
+	if !ok {
+		return nil
+	}
+	b := u.Block()
+	for i := InstrIndex(u) - 1; i >= 0; i-- {
+		if st, ok := b.Instrs[i].(*ssa.Store); ok && st.Addr == ssa.Value(al) {
+			return st.Val
+		}
+		// a call that receives the cell's address could store to it
+	}
+	return nil
+}
